@@ -132,12 +132,19 @@ impl AwsChunkedStream {
                     prev_signature: seed_signature,
                 };
 
+                let mut final_chunk_seen = false;
+                let mut decoded_length: usize = 0;
+
                 loop {
                     let meta = {
                         match Self::read_meta_bytes(body.as_mut(), prev_bytes, &mut buf).await {
                             None => break,
                             Some(Err(e)) => return Err(AwsChunkedStreamError::Underlying(e)),
                             Some(Ok(remaining_bytes)) => prev_bytes = remaining_bytes,
+                        }
+                        // nothing may follow the zero-length final chunk
+                        if final_chunk_seen {
+                            return Err(AwsChunkedStreamError::FormatError);
                         }
                         if let Ok((_, meta)) = parse_chunk_meta(&buf) {
                             meta
@@ -162,9 +169,20 @@ impl AwsChunkedStream {
                         Some(signature) => ctx.prev_signature = signature,
                     }
 
+                    if meta.size == 0 {
+                        final_chunk_seen = true;
+                    }
+                    decoded_length = decoded_length.saturating_add(meta.size);
+
                     for bytes in data {
                         y.yield_ok(bytes).await;
                     }
+                }
+
+                // the transport ended: the upload is complete only if no partial chunk header is pending,
+                // the signed final chunk was received and the total is the declared decoded length
+                if !buf.is_empty() || !final_chunk_seen || decoded_length != decoded_content_length {
+                    return Err(AwsChunkedStreamError::Incomplete);
                 }
 
                 Ok(())
